@@ -124,6 +124,8 @@ func (w *vWriter) Write(p []byte) (int, error) {
 		w.buf = append(w.buf, p...)
 		return len(p), nil
 	}
+	// another client may run between the truncation and the write
+	w.e.preempt()
 	if !w.e.step("put-write:" + w.base) {
 		w.dead = true
 		return 0, vErrCrash
@@ -187,6 +189,8 @@ func (e *vEngine) PutIfNotExists(_ context.Context, u *storage.URI, b []byte) er
 	}
 	f := &vFile{owner: e.client}
 	e.files[u.Path] = f
+	// another client may run between the creation and the write
+	e.preempt()
 	if !e.step("putx-fill:" + base) {
 		return vErrCrash
 	}
